@@ -20,6 +20,34 @@ fn main() {
     common::install_quiet_panic_hook();
     std::fs::create_dir_all(args.root.join(".work")).ok();
     env::sweep_work(&args.root);
-    let code = props::dispatch(&args);
+    // A panic that escapes a check is never a silent crash: when any panic of this process
+    // started outside the harness sources (TrustTunnel or a crate it calls into) the run is
+    // a violation witness, otherwise the harness itself is broken (exit 2, no verdict).
+    let code = match common::catch(|| props::dispatch(&args)) {
+        Ok(code) => code,
+        Err(msg) => {
+            let log = common::PANIC_LOG.lock().map(|l| l.clone()).unwrap_or_default();
+            let foreign = log.iter().find(|(loc, _)| !loc.is_empty() && !loc.contains("/verif/"));
+            match foreign {
+                Some((loc, text)) => {
+                    let dir = args.root.join(".work").join("replay");
+                    std::fs::create_dir_all(&dir).ok();
+                    let path = dir.join(format!("{}-escaped-panic.json", args.id));
+                    let doc = serde_json::json!({
+                        "property": args.id, "kind": "escaped-panic", "location": loc,
+                        "panic": text, "escaped_as": msg, "seed": args.seed,
+                    });
+                    std::fs::write(&path, serde_json::to_string_pretty(&doc).unwrap_or_default()).ok();
+                    eprintln!("panic inside the code under test escaped the check: {} @ {}", text, loc);
+                    println!("VIOLATION property={} replay={}", args.id, path.display());
+                    1
+                }
+                None => {
+                    eprintln!("BROKEN-RUN: the harness panicked: {}", msg);
+                    2
+                }
+            }
+        }
+    };
     std::process::exit(code);
 }
